@@ -175,7 +175,7 @@ def rp_sig(t, m, verdict, fail_at):
 
 
 def part_traces(ctx, rep):
-    from hypothesis import given, seed, settings
+    from hypothesis import HealthCheck, given, seed, settings
     from hypothesis import strategies as st
     rng = ctx.rng
     small, big, meta = [], [], {}
@@ -197,7 +197,7 @@ def part_traces(ctx, rep):
     payload = st.one_of(st.binary(min_size=1, max_size=12), st.binary(min_size=1, max_size=300), st.none(), st.just("delim"))
     nsmall = ctx.pick(220, 2500)
 
-    @settings(max_examples=nsmall, derandomize=True, database=None, deadline=None)
+    @settings(max_examples=nsmall, derandomize=True, database=None, deadline=None, suppress_health_check=list(HealthCheck))
     @seed(ctx.seed)
     @given(st.lists(payload, max_size=6), st.binary(max_size=40), st.one_of(st.none(), st.integers(0, 2000)), st.integers(0, 2),
            st.booleans(), st.booleans())
